@@ -6,6 +6,7 @@
 // replay artefact. No code in here reads a clock or any entropy source.
 #pragma once
 #include <cerrno>
+#include <cfenv>
 #include <cstdint>
 #include <cstdio>
 #include <cstdlib>
@@ -138,6 +139,8 @@ struct Shared
 	char detail[2048];
 	int32_t nontrivial;
 	uint64_t ambient_errno;	  // ops started with a non-zero errno left behind (generic fault)
+	uint64_t ambient_fpflags;  // ops started with sticky IEEE exception flags raised (generic fault)
+	uint64_t early_calls;	  // library calls made before main() whose results this run checked (static-initialisation-order fault)
 	uint64_t probes[MAX_PROBES];
 	double metrics[32];
 	uint8_t states[MAX_STATES / 8];
@@ -198,6 +201,16 @@ struct Ctx
 		errno = e;
 		if(e)
 			sh->ambient_errno++;
+		// ... and so are the IEEE exception flags: they are sticky, and whatever ran before may have overflowed or divided by
+		// zero. Code that tests a flag it never cleared misbehaves only then.
+		static const int FLAGS[8] = {0, 0, FE_OVERFLOW, FE_INVALID, FE_DIVBYZERO, FE_UNDERFLOW | FE_INEXACT, FE_OVERFLOW | FE_INEXACT, FE_ALL_EXCEPT};
+		int fl = FLAGS[(mix64(salt ^ 0xF1A65ull) + (uint64_t) k * 0x51ED27ull) >> 7 & 7];
+		std::feclearexcept(FE_ALL_EXCEPT);
+		if(fl)
+		{
+			std::feraiseexcept(fl);
+			sh->ambient_fpflags++;
+		}
 	}
 	void probe(int id, uint64_t n = 1)
 	{
@@ -254,6 +267,17 @@ inline double ulps(double a, double b, double scale)
 		u = 5e-324;
 	return std::fabs(a - b) / u;
 }
+
+// static-initialisation-order fault (early.cpp): library calls made from a translation unit initialised before the library's
+static const int EARLY_SECTIONS = 4, EARLY_SLOTS = 32;
+struct EarlyRecord
+{
+	int ran[EARLY_SECTIONS], status[EARLY_SECTIONS], n[EARLY_SECTIONS];
+	double v[EARLY_SECTIONS][EARLY_SLOTS];
+};
+extern EarlyRecord g_early;
+void early_prepare();		   // worker start-up, after main: the same calls in the usual order (pristine child)
+void early_check(Ctx& ctx);	   // start of every run: compare; throws ViolationEx
 
 // entropy seam (defined in seams.cpp): value returned by the next std::random_device draw
 void entropy_set_call_seed(uint64_t seed);
